@@ -29,11 +29,16 @@ CreatedBy(r) ==
 
 Class(r) == Route(r.sec, r.plugins, r.beh)
 
+SeqRange(q) == {q[n] : n \in 1..Len(q)}
+
 C04Failing(r) ==
     IF ~r.entry.present THEN {"EntryPresent"}
     ELSE LET c == Class(r)  e == r.entry IN
     {x \in {"BaseKeys", "DataPresent", "Lossless", "ErrorNote", "JsonSame", "TextLines", "PluginOutput"} :
-       \/ x = "BaseKeys" /\ (e.ver # r.sec.ver \/ e.sub # r.sec.sub \/ e.createdby # CreatedBy(r))
+       \* (r.collide: header field names the section's own JSON object uses as member names - not comparable there)
+       \/ x = "BaseKeys" /\ \/ ("Section Version" \notin SeqRange(r.collide) /\ e.ver # r.sec.ver)
+                             \/ ("Sub-section type" \notin SeqRange(r.collide) /\ e.sub # r.sec.sub)
+                             \/ ("Created by" \notin SeqRange(r.collide) /\ e.createdby # CreatedBy(r))
        \/ x = "DataPresent" /\ CarriesDump(c) /\ ~e.has_data
        \/ x = "Lossless" /\ CarriesDump(c) /\ e.has_data /\ ~Lossless(e.data, r.sec.payload)
        \/ x = "ErrorNote" /\ (e.has_error # (c = "dump+error"))
